@@ -1,4 +1,5 @@
 import OjgVerif.Props.C05
+import OjgVerif.Gen.JpathFacts
 /-! # C11 — every JSONPath evaluator and data representation agrees with Get
 
 All evaluators are the shared skeleton `evalSel` over per-evaluator selection functions transcribed from
@@ -8,8 +9,8 @@ The theorems reduce agreement to equalities of selection functions (index arithm
 
 Deviations are flags of `Cfg`; the general theorems are parametric in the configuration and name the flags
 they need off. `*_current` are the statements for **the code as it is now** (`Cfg.pinned`, after the fixes
-baff053, 0e0caaf, fa2ed77, 5d79291, 360668e, 1af5385, 21977aa): only `locStartClamp` (pinned by the suite) and
-the typed-data flags are still on. `*_before_*` document what failed before a fix (`Cfg.original`). -/
+baff053, 0e0caaf, fa2ed77, 5d79291, 360668e, 1af5385, 21977aa, 6d09ec9, 6f19325, 927d89c, c654348): only
+`locStartClamp` and `firstTypedSlice`, both pinned by the suite, are still on. `*_before_*` document what failed before a fix (`Cfg.original`). -/
 set_option linter.unusedSimpArgs false
 namespace OjgVerif.C11
 open OjgVerif OjgVerif.JPath
@@ -295,5 +296,87 @@ theorem C11_nodes_full_false_before_360668e : ¬ C11_nodes_full Cfg.original := 
   have h2 : (nodesM Cfg.original w7path w7data).length = 2 := by decide
   have h3 : (getM Cfg.original Rep.gen w7path w7data).length = 1 := by decide
   omega
+
+/-! ## Typed (reflect) representations
+
+With `typedMapWild` (927d89c) and `typedObjFilter` (c654348) off, Get's selection functions on typed slices,
+arrays, structs and maps are those on `[]any`/`map[string]any` (the slice code of `reflectGetSlice` visits the
+same indexes: `modelIdxR_eq`), so Get on every representation is Get on the simple data. -/
+
+/-- **Get on any representation selects the corresponding elements** (flags `innerEmptySlice`,
+`typedMapWild`, `typedObjFilter` off) -/
+theorem C11_repr (cfg : Cfg) (he : cfg.innerEmptySlice = false) (hm : cfg.typedMapWild = false)
+    (ht : cfg.typedObjFilter = false) (rep : Rep) (x : List Frag) (d : JV) :
+    getM cfg rep x d = getM cfg Rep.simple x d := by
+  have hcut : ∀ r : Rep, (cfg.typedMapWild && decide (r.ok = OKind.rmap)) = false := by
+    intro r; simp [hm]
+  rw [C05.machine_eq_skeleton cfg rep (hcut rep), C05.machine_eq_skeleton cfg Rep.simple (hcut _)]
+  simp only [getS]
+  rw [evalSel_congr' (Get.sel cfg rep) (Get.sel cfg Rep.simple) cfg.descentSiblings
+    (fun f v => get_inner_rep cfg he hm ht rep f v) rfl (fun f v => get_last_rep cfg hm ht rep f v) x d]
+
+/-- **for the code as it is now**: Get on gen nodes, Indexed/Keyed collections, typed slices, arrays, structs
+and maps is Get on the simple data — every representation, every path, every tree -/
+theorem C11_repr_current (rep : Rep) (x : List Frag) (d : JV) :
+    getM Cfg.pinned rep x d = getM Cfg.pinned Rep.simple x d :=
+  C11_repr Cfg.pinned rfl rfl rfl rep x d
+
+/-- `$.*` on `{"a":1}` held as `map[string]int64`: before 927d89c Get saw no member; now one -/
+theorem C11_typed_map_before_927d89c :
+    (getS Cfg.original ⟨.rslice, .rmap⟩ [.wild] (.obj [([97], .int 1)])).length = 0 ∧
+    (getS Cfg.pinned ⟨.rslice, .rmap⟩ [.wild] (.obj [([97], .int 1)])).length = 1 := by decide
+
+/-- `$[?(true)]` on `{"a":1}` held as a struct: before c654348 the filter selected nothing; now the member -/
+theorem C11_typed_filter_before_c654348 :
+    (getS Cfg.original ⟨.rslice, .struct⟩ [.filter (fun _ => true)] (.obj [([97], .int 1)])).length = 0 ∧
+    (getS Cfg.pinned ⟨.rslice, .struct⟩ [.filter (fun _ => true)] (.obj [([97], .int 1)])).length = 1 ∧
+    (walkM Cfg.original ⟨.rslice, .struct⟩ [.filter (fun _ => true)] (.obj [([97], .int 1)])).length = 0 ∧
+    (walkM Cfg.pinned ⟨.rslice, .struct⟩ [.filter (fun _ => true)] (.obj [([97], .int 1)])).length = 1 := by decide
+
+/-- `$[0:2]` on `[1,2,3]` held as a typed array: before 6f19325 Walk reported nothing; now two locations -/
+theorem C11_walk_typed_array_before_6f19325 :
+    (walkM Cfg.original ⟨.rarray, .struct⟩ [.slice (some 0) (some 2) none] (.arr [.int 1, .int 2, .int 3])).length = 0 ∧
+    (walkM Cfg.pinned ⟨.rarray, .struct⟩ [.slice (some 0) (some 2) none] (.arr [.int 1, .int 2, .int 3])).length = 2 := by
+  decide
+
+/-- `$[*][0]` on `[[],[7]]` held as typed slices: before 6d09ec9 FirstFound and Has searched element 0 only -/
+theorem C11_first_typed_wildcard_before_6d09ec9 :
+    firstM Cfg.original ⟨.rslice, .struct⟩ [.wild, .nth 0] (.arr [.arr [], .arr [.int 7]]) = none ∧
+    hasM Cfg.original ⟨.rslice, .struct⟩ [.wild, .nth 0] (.arr [.arr [], .arr [.int 7]]) = false ∧
+    (firstM Cfg.pinned ⟨.rslice, .struct⟩ [.wild, .nth 0] (.arr [.arr [], .arr [.int 7]])).isSome = true ∧
+    hasM Cfg.pinned ⟨.rslice, .struct⟩ [.wild, .nth 0] (.arr [.arr [], .arr [.int 7]]) = true := by decide
+
+/-- still so (pinned by TestExprFirst/TestExprHas): on typed data FirstFound and Has read a slice fragment as
+`Nth(start)`: `$[1:1]` on `[1,2,3]` finds `2`, Get nothing -/
+theorem C11_first_typed_slice_witness :
+    (firstM Cfg.pinned ⟨.rslice, .struct⟩ [.slice (some 1) (some 1) none] (.arr [.int 1, .int 2, .int 3])).isSome = true ∧
+    hasM Cfg.pinned ⟨.rslice, .struct⟩ [.slice (some 1) (some 1) none] (.arr [.int 1, .int 2, .int 3]) = true ∧
+    (getM Cfg.pinned ⟨.rslice, .struct⟩ [.slice (some 1) (some 1) none] (.arr [.int 1, .int 2, .int 3])).length = 0 := by
+  decide
+
+/-! ## The model of the current code is the current code's -/
+
+/-- `Cfg.pinned` has exactly the deviations the extractor finds in jp/*.go as it is now (`Gen.JpathFacts`,
+regenerated on every run): undoing one of the repairs, or repairing one of the two pinned deviations, breaks
+this theorem — and with it the claim that the `_current` theorems are about the code -/
+theorem pinned_is_source :
+    Cfg.pinned.innerEmptySlice = Gen.JpathFacts.innerEmptySlice ∧
+    Cfg.pinned.descentSiblings = Gen.JpathFacts.descentSiblings ∧
+    Cfg.pinned.locNegEnd = Gen.JpathFacts.locNegEnd ∧
+    Cfg.pinned.locStartClamp = Gen.JpathFacts.locStartClamp ∧
+    Cfg.pinned.locEmptyArray = Gen.JpathFacts.locEmptyArray ∧
+    Cfg.pinned.locateRoot = Gen.JpathFacts.locateRoot ∧
+    Cfg.pinned.walkDescentNoSelf = Gen.JpathFacts.walkDescentNoSelf ∧
+    Cfg.pinned.nodesUnionNil = Gen.JpathFacts.nodesUnionNil ∧
+    Cfg.pinned.nodesFilterRev = Gen.JpathFacts.nodesFilterRev ∧
+    Cfg.pinned.firstNodeLast = Gen.JpathFacts.firstNodeLast ∧
+    Cfg.pinned.nodesFilterNull = Gen.JpathFacts.nodesFilterNull ∧
+    Cfg.pinned.typedMapWild = Gen.JpathFacts.typedMapWild ∧
+    Cfg.pinned.typedObjFilter = Gen.JpathFacts.typedObjFilter ∧
+    Cfg.pinned.firstTypedSlice = Gen.JpathFacts.firstTypedSlice ∧
+    Cfg.pinned.firstTypedWildOne = Gen.JpathFacts.firstTypedWildOne ∧
+    Cfg.pinned.hasTypedMap = Gen.JpathFacts.hasTypedMap ∧
+    Cfg.pinned.hasTypedDescent = Gen.JpathFacts.hasTypedDescent ∧
+    Cfg.pinned.walkTypedArray = Gen.JpathFacts.walkTypedArray := by decide
 
 end OjgVerif.C11
